@@ -23,9 +23,11 @@ for line in out.splitlines():
 missing=sorted(stable-ok)
 print("suite_ok" if not missing else "suite_FAIL "+",".join(missing))
 PY
-git stash push -q -- src/ >/dev/null 2>&1
+# (not `git stash`: the stash is shared by all worktrees of a repository)
+git diff -- src/ > /tmp/.vs.$$.cur
+git apply -R /tmp/.vs.$$.cur
 demo_without=$(cargo test --offline --test seeded_demo 2>&1 | grep -E "^test result" | tail -1)
-git stash pop -q >/dev/null 2>&1
+git apply /tmp/.vs.$$.cur; rm -f /tmp/.vs.$$.cur
 rm -f /tmp/.vs.$$.diff
 s=$(cat /tmp/.vs.$$.suite); rm -f /tmp/.vs.$$.suite
 echo "$wt | with: $demo_with | without: $demo_without | $s"
